@@ -236,6 +236,10 @@ pub fn catalogue() -> Vec<Prog> {
         fill(0x6867).lab("pk2"), fill(0x0069), fill(0x6b6a), fill(0),
     ]));
     v.push(p("eofin", false, b"A", vec![plain("getc"), plain("getc"), halt()]));
+    // a subroutine that never returns: it halts (error exit)
+    v.push(p("failcall", false, b"", vec![pc_lab("lea", 0, "emsg"), pc_lab("jsr", 0, "fail"), add_i(1, 1, 1), halt(),
+                                          plain("puts").lab("fail"), halt(), stringz("E").lab("emsg")]));
+    v.push(p("failcall2", true, b"", vec![pc_lab("call", 0, "fail"), add_i(1, 1, 1), halt(), add_i(2, 2, 2).lab("fail"), trap(0x30)]));
     v.push(p("badtrap", false, b"", vec![add_i(0, 0, 1), trap(0x30), halt()]));
     v.push(p("rawd_off", false, b"", vec![add_i(0, 0, 1), fill(0xD000 + 0x400 + 0x40), halt()]));
     v.push(p("rawd_on", true, b"", vec![add_i(0, 0, 1), fill(0xD000 + 0x400 + 0x40), fill(0xD000 + 0x80), halt()]));
@@ -717,6 +721,40 @@ fn sessions_scenario(rng: &mut Rng) -> Vec<Session> {
                           simple("registers", rng), simple("continue", rng), simple("reset", rng), simple("reset", rng), simple("quit", rng)]);
     sc!("wrapld", true, [stepinto(Some(3), rng), mov(Loc::Addr(0x10), 7, rng), mov(Loc::Reg(7), 3, rng), simple("reset", rng), simple("registers", rng), simple("continue", rng)]);
     sc!("recursive", true, [stepinto(Some(6), rng), mov(Loc::Addr(0xFDFE), 0x1234, rng), simple("reset", rng), with_loc("print", Loc::Addr(0xFDFE), rng), simple("quit", rng)]);
+    // `step` at every instruction, incl. on RET / RETS / a call into a routine that halts
+    for pn in ["callnest", "recursive", "jsr", "failcall", "failcall2", "jsrr"] {
+        sc!(pn, false, [simple("step", rng), simple("step", rng), simple("step", rng), simple("step", rng), simple("step", rng), simple("step", rng),
+                        simple("step", rng), simple("step", rng), simple("step", rng), simple("step", rng), simple("registers", rng)]);
+        sc!(pn, false, [stepinto(Some(1), rng), simple("step", rng), stepinto(Some(2), rng), simple("step", rng), stepinto(Some(1), rng), simple("step", rng),
+                        stepinto(Some(1), rng), simple("step", rng), simple("step", rng), simple("registers", rng)]);
+        sc!(pn, false, [stepinto(Some(3), rng), simple("stepout", rng), simple("step", rng), simple("stepout", rng), simple("step", rng), simple("continue", rng)]);
+    }
+    // locations spelled relative to a PC that has left user space
+    for pn in ["jmpffff", "jmplow", "jmphigh", "jmpzero"] {
+        sc!(pn, true, [simple("continue", rng), mov(Loc::PcOff(0), 0x0100, rng), with_loc("breakadd", Loc::PcOff(0), rng), with_loc("breakremove", Loc::PcOff(0), rng),
+                       with_loc("print", Loc::PcOff(0), rng), with_loc("assembly", Loc::None, rng), with_loc("goto", Loc::PcOff(0), rng), simple("breaklist", rng),
+                       mov(Loc::PcOff(1), 7, rng), mov(Loc::PcOff(-1), 7, rng), simple("registers", rng), simple("exit", rng)]);
+    }
+    // eval of a jump whose target is PC+1, PC, PC-1
+    sc!("straight", true, [mov(Loc::Reg(3), 0x3003, rng), with_loc("goto", Loc::Addr(0x3002), rng), eval(&reg1("jmp", 3), true, None, rng), simple("registers", rng),
+                           mov(Loc::Reg(7), 0x3002, rng), with_loc("goto", Loc::Addr(0x3001), rng), eval(&plain("ret"), true, None, rng), simple("registers", rng),
+                           mov(Loc::Reg(2), 0x3001, rng), eval(&reg1("jmp", 2), true, None, rng), simple("registers", rng), mov(Loc::Reg(2), 0x3000, rng),
+                           eval(&reg1("jmp", 2), true, None, rng), simple("registers", rng), simple("exit", rng)]);
+    // only eval changes the machine, then reset
+    sc!("data", true, [eval(&add_i(1, 1, 5), true, None, rng), eval(&pc_lab("st", 1, "a"), true, None, rng), simple("reset", rng), simple("registers", rng),
+                       with_loc("print", lab("a", 0), rng), simple("continue", rng)]);
+    sc!("data", true, [stepinto(Some(2), rng), simple("reset", rng), eval(&not(2, 2), true, None, rng), eval(&base_off("str", 2, 7, 1), true, None, rng),
+                       simple("reset", rng), simple("registers", rng), with_loc("print", Loc::Addr(0xFE00), rng), simple("quit", rng)]);
+    // a run-time breakpoint over a .break, removal of the first of three, breakpoint on a RET reached by step out
+    sc!("breaks", false, [with_loc("breakadd", lab("mid", 0), rng), simple("breaklist", rng), with_loc("breakremove", lab("mid", 0), rng), simple("breaklist", rng),
+                          simple("continue", rng), simple("continue", rng), simple("continue", rng), simple("continue", rng), simple("continue", rng)]);
+    sc!("loop", false, [with_loc("breakadd", Loc::Addr(0x3001), rng), with_loc("breakadd", Loc::Addr(0x3003), rng), with_loc("breakadd", Loc::Addr(0x3005), rng),
+                        with_loc("breakremove", Loc::Addr(0x3001), rng), simple("breaklist", rng), simple("continue", rng), simple("registers", rng),
+                        simple("continue", rng), simple("continue", rng), simple("continue", rng)]);
+    sc!("callnest", false, [with_loc("breakadd", lab("g", 3), rng), simple("continue", rng), with_loc("breakadd", lab("f", 3), rng), stepinto(Some(1), rng),
+                            simple("stepout", rng), simple("registers", rng), simple("stepout", rng), simple("stepout", rng), simple("continue", rng)]);
+    sc!("jsr", false, [with_loc("breakadd", lab("inner", 1), rng), stepinto(Some(3), rng), simple("stepout", rng), simple("registers", rng), simple("continue", rng),
+                       simple("continue", rng)]);
     // io under the debugger
     sc!("io", false, [stepinto(Some(4), rng), simple("registers", rng), simple("continue", rng)]);
 
@@ -769,6 +807,50 @@ fn sessions_view(rng: &mut Rng, n: usize) -> Vec<Session> {
     out
 }
 
+/// Direction (B): behaviours printed by TLC from Gen_Debugger.tla, one JSON object per line
+/// (program tree, flag, structured script); the sessions are run for real and compared by bin/check.
+fn sessions_replay(rng: &mut Rng, path: &str) -> Vec<Session> {
+    let mut out = Vec::new();
+    for (i, line) in std::fs::read_to_string(path).expect("behaviour file").lines().enumerate() {
+        let b: Value = serde_json::from_str(line).expect("behaviour json");
+        let ast: Vec<Item> = b["ast"].as_array().unwrap().iter().map(Item::from_json).collect();
+        let mut script = Vec::new();
+        for c in b["script"].as_array().unwrap() {
+            let n = c["n"].as_str().unwrap();
+            let lv = c["lv"].as_i64().unwrap();
+            let v = c["v"].as_i64().unwrap();
+            let loc = match c["lt"].as_str().unwrap() {
+                "reg" => format!("r{}", lv),
+                "addr" => format!("x{:04x}", lv),
+                "pcoff" => format!("^{}", lv),
+                _ => String::new(),
+            };
+            let text = match n {
+                "step" => "step".to_string(),
+                "stepinto" => format!("step into {}", v),
+                "stepout" => "step out".to_string(),
+                "continue" => "continue".to_string(),
+                "breakadd" => format!("break add {}", loc),
+                "breakremove" => format!("break remove {}", loc),
+                "breaklist" => "break list".to_string(),
+                "print" => format!("print {}", loc),
+                "goto" => format!("goto {}", loc),
+                "reset" => "reset".to_string(),
+                "move" => format!("move {} {}", loc, v),
+                "exit" => "exit".to_string(),
+                other => panic!("no text for command {other}"),
+            };
+            let mut cj = c.clone();
+            cj["pure"] = json!(false);
+            script.push(Cmd { text, c: cj });
+        }
+        let r = render(rng, &ast, &Layout { wild: false, comments: false });
+        out.push(Session { id: format!("replay:{}", i), program: Program::Asm { src: r.src, ast, texts: r.texts }, stack: b["stack"].as_bool().unwrap(),
+                           input: vec![], script: Some(script), fuel: 2000, mayloop: true });
+    }
+    out
+}
+
 fn sessions_debug(rng: &mut Rng, n: usize, per_prog: usize, focus: &str) -> Vec<Session> {
     let mut out = Vec::new();
     let mut progs = catalogue();
@@ -810,6 +892,7 @@ pub fn main(args: &Args) {
         "debug" => sessions_debug(&mut rng, n, per, args.get("focus").unwrap_or("mixed")),
         "scenario" => sessions_scenario(&mut rng),
         "view" => sessions_view(&mut rng, n),
+        "replay" => sessions_replay(&mut rng, args.req("in")),
         "enum" => sessions_enum(&mut rng, args.num("len", 2) as usize, args.num("stride", 1) as usize, args.num("phase", 0) as usize),
         other => panic!("unknown mode {other}"),
     };
